@@ -512,10 +512,9 @@ static int recomp_record_fields (hawk_rtx_t* rtx, hawk_oow_t lv, const hawk_oocs
 
 int hawk_rtx_truncrec (hawk_rtx_t* rtx, hawk_oow_t nflds)
 {
-	hawk_val_t* v = HAWK_NULL, * w;
-	hawk_ooch_t* ofs_free = HAWK_NULL, * ofs_ptr;
-	hawk_oow_t ofs_len = 0, i;
-	hawk_val_type_t vtype;
+	hawk_val_t* w;
+	const hawk_ooch_t* ofs_ptr;
+	hawk_oow_t ofs_len, i;
 	hawk_ooecs_t tmp;
 	int fini_tmp = 0;
 
@@ -526,41 +525,19 @@ int hawk_rtx_truncrec (hawk_rtx_t* rtx, hawk_oow_t nflds)
 	if (hawk_ooecs_init(&tmp, hawk_rtx_getgem(rtx), (HAWK_OOECS_LEN(&rtx->inrec.line) > 0? HAWK_OOECS_LEN(&rtx->inrec.line): 1)) <= -1) goto oops;
 	fini_tmp = 1;
 
+	/* join with the text of OFS kept in rtx->gbl.ofs. it is what print and the
+	 * assignment to $N use. converting the value of OFS again here can give a
+	 * different text - OFS = 0.1 followed by a change of CONVFMT for instance */
+	ofs_ptr = rtx->gbl.ofs.ptr;
+	ofs_len = rtx->gbl.ofs.len;
+
 	if (nflds > 0)
 	{
-		if (nflds > 1)
-		{
-			v = HAWK_RTX_STACK_GBL(rtx, HAWK_GBL_OFS);
-			hawk_rtx_refupval (rtx, v);
-			vtype = HAWK_RTX_GETVALTYPE(rtx, v);
-
-			if (vtype == HAWK_VAL_NIL)
-			{
-				/* OFS has been assigned an unset value. it is an empty string
-				 * as in the text that print and the assignment to $N use */
-				ofs_ptr = HAWK_T("");
-				ofs_len = 0;
-			}
-			else
-			{
-				ofs_ptr = hawk_rtx_getvaloocstr(rtx, v, &ofs_len);
-				if (HAWK_UNLIKELY(!ofs_ptr)) goto oops;
-				ofs_free = ofs_ptr;
-			}
-		}
-
 		if (hawk_ooecs_ncat(&tmp, rtx->inrec.flds[0].ptr, rtx->inrec.flds[0].len) == (hawk_oow_t)-1) goto oops;
 		for (i = 1; i < nflds; i++)
 		{
-			if (i > 0 && hawk_ooecs_ncat(&tmp,ofs_ptr,ofs_len) == (hawk_oow_t)-1) goto oops;
+			if (hawk_ooecs_ncat(&tmp,ofs_ptr,ofs_len) == (hawk_oow_t)-1) goto oops;
 			if (hawk_ooecs_ncat(&tmp, rtx->inrec.flds[i].ptr, rtx->inrec.flds[i].len) == (hawk_oow_t)-1) goto oops;
-		}
-
-		if (v)
-		{
-			if (ofs_free) hawk_rtx_freevaloocstr (rtx, v, ofs_free);
-			hawk_rtx_refdownval(rtx, v);
-			v = HAWK_NULL;
 		}
 	}
 
@@ -597,10 +574,5 @@ int hawk_rtx_truncrec (hawk_rtx_t* rtx, hawk_oow_t nflds)
 
 oops:
 	if (fini_tmp) hawk_ooecs_fini (&tmp);
-	if (v)
-	{
-		if (ofs_free) hawk_rtx_freevaloocstr (rtx, v, ofs_free);
-		hawk_rtx_refdownval(rtx, v);
-	}
 	return -1;
 }
